@@ -1474,6 +1474,8 @@ fn build_path(lhs: &AstNode, rhs: &AstNode) -> Result<Evaluator> {
             if let Value::Context(context) = item {
               if let Some(value) = context.get_entry(&name) {
                 result.push(value.clone());
+              } else {
+                result.push(value_null!("eval_path_expression: no entry {} in context: {}", name, context));
               }
             } else {
               return value_null!("eval_path_expression: no context in list");
